@@ -4,7 +4,8 @@
    State   db : client id -> [tables : table name -> Table, fail : "none" | "internal" | "deprecated"]
            Table = [hash  : [n, ty],  range : [some, n, ty],  defs : attribute name -> scalar type,
                     idx   : index name -> [kind : "g" | "l", hash : name, range : [some, n], proj : string],
-                    items : SET of items]          (an item is a function attribute name -> value)
+                    items : SET of items,          (an item is a function attribute name -> value)
+                    prov  : BOOLEAN]               (billing mode PROVISIONED)
    Secondary indexes are not state: IndexView(tbl, ix) DEFINES what reading through an index returns.
 
    One public call = one operation record `e` (fields fixed per e.op, see Appendix E of DESIGN.md).
@@ -32,6 +33,8 @@ KeyEq(tbl, i, j) == \A a \in KeyAttrs(tbl) : SameValue(i[a], j[a])
 Lookup(tbl, key) == { i \in tbl.items : KeyEq(tbl, i, key) }
 KeyOf(tbl, it) == [a \in KeyAttrs(tbl) |-> it[a]]
 ValidKeyArg(tbl, key) == DOMAIN key = KeyAttrs(tbl) /\ KeyTypeOK(tbl, key)
+\* a key that carries the key attributes plus others: DynamoDB rejects it, the properties do not say; either way
+OverKey(tbl, key) == KeyTypeOK(tbl, key) /\ DOMAIN key # KeyAttrs(tbl)
 
 IdxAttrs(ixd) == {ixd.hash} \cup (IF ixd.range.some THEN {ixd.range.n} ELSE {})
 \* every index key attribute the item carries has the declared type
@@ -139,7 +142,7 @@ Plan(db, e) ==
                  [hash |-> [n |-> e.hash, ty |-> "S"],
                   range |-> [some |-> e.range # "", n |-> e.range, ty |-> "S"],
                   defs |-> [n \in {e.hash} \cup (IF e.range # "" THEN {e.range} ELSE {}) |-> "S"],
-                  idx |-> <<>>, items |-> {}]))
+                  idx |-> <<>>, items |-> {}, prov |-> FALSE]))
 
     [] e.op = "CreateTable" ->
          IF e.t \in DOMAIN cl.tables THEN Refuse(db, {"riu"})
@@ -159,7 +162,7 @@ Plan(db, e) ==
               IN IF ~good THEN Refuse(db, GenErr)
                  ELSE Ok(WithTable(db, e.c, e.t,
                           [hash |-> e.hash, range |-> e.range, defs |-> defs,
-                           idx |-> [n \in names |-> ixOf(n)], items |-> {}]))
+                           idx |-> [n \in names |-> ixOf(n)], items |-> {}, prov |-> prov]))
 
     [] e.op = "DeleteTable" ->
          IF e.t \notin DOMAIN cl.tables THEN Refuse(db, {"rnf"}) ELSE Ok(WithoutTable(db, e.c, e.t))
@@ -178,6 +181,7 @@ Plan(db, e) ==
                   nd  == [n \in (DOMAIN tbl.defs) \cup {e.hash} \cup (IF rng.some THEN {rng.n} ELSE {}) |->
                              IF n = e.hash \/ (rng.some /\ n = rng.n) THEN "S" ELSE tbl.defs[n]]
               IN IF e.index \in DOMAIN tbl.idx THEN [ocs |-> {"ok", "err"}, cls |-> GenErr \cup {"riu"}, next |-> db]
+                 ELSE IF tbl.prov THEN Refuse(db, GenErr)   \* the helper supplies no provisioned throughput
                  ELSE Ok(WithTable(db, e.c, e.t,
                           [tbl EXCEPT !.defs = nd,
                                       !.idx = [n \in (DOMAIN tbl.idx) \cup {e.index} |->
@@ -233,6 +237,7 @@ Plan(db, e) ==
 
     [] e.op = "GetItem" ->
          IF e.t \notin DOMAIN cl.tables THEN Refuse(db, {"rnf"})
+         ELSE IF OverKey(cl.tables[e.t], e.key) THEN [ocs |-> {"ok", "err"}, cls |-> GenErr, next |-> db]
          ELSE IF ~ValidKeyArg(cl.tables[e.t], e.key) THEN Refuse(db, GenErr)
          ELSE Ok(db)
 
